@@ -233,7 +233,7 @@ def build_foreign(step, ctx, run_seed):
     if kind == 'unknown_version':
         ctx.probe('unknown_version')
         t = r.choice([2, 6, 1, 3, 4])
-        return t, bytes([r.choice([5, 6, 9])]) + rnd(max(n, 12))
+        return t, bytes([r.choice([5, 6, 9, 0, 0, 255, 1 if t != 1 else 9])]) + rnd(max(n, 12))
     return 13, b'fallback'
 
 
